@@ -1,0 +1,27 @@
+//go:build verif
+// +build verif
+
+// Package verifhook holds the verification hooks of rcproxy. With the "verif" build tag the hooks forward
+// to function variables that are nil by default, so even a verif build behaves as shipped until a harness
+// installs them.
+package verifhook
+
+// OnYield and OnEvent are installed by the verification harness.
+var (
+	OnYield func(point string)
+	OnEvent func(kind, arg string)
+)
+
+// Yield marks a point where the verification harness may park the calling goroutine.
+func Yield(point string) {
+	if f := OnYield; f != nil {
+		f(point)
+	}
+}
+
+// Event reports an event to the verification harness.
+func Event(kind, arg string) {
+	if f := OnEvent; f != nil {
+		f(kind, arg)
+	}
+}
